@@ -150,6 +150,18 @@ func Or(a, b bool) bool      { return a || b }
 func Not(a bool) bool        { return !a }
 func Implies(a, b bool) bool { return !a || b }
 
+// ContentByte is byte off of the arbitrary content named tag (engine: an
+// uninterpreted function of the offset; native: a fixed pseudo-random byte).
+func ContentByte(tag string, off int64) byte {
+	h := uint64(1469598103934665603)
+	for i := 0; i < len(tag); i++ {
+		h = (h ^ uint64(tag[i])) * 1099511628211
+	}
+	h = (h ^ uint64(off)) * 1099511628211
+	h ^= h >> 29
+	return byte(h)
+}
+
 // Ite64 is if c then a else b without branching.
 func Ite64(c bool, a, b int64) int64 {
 	if c {
